@@ -830,8 +830,11 @@ func runHarness(prog *ssa.Program, h *ssa.Function, opts *Options) *Result {
 				}
 				if opts.StopViol > 0 {
 					nv := 0
-					for _, n := range res.ViolCount {
-						nv += n
+					for k, n := range res.ViolCount {
+						if !strings.HasPrefix(k, "fuel:") {
+							// budget exhaustion is confirmed natively on the heaviest inputs: keep looking for them
+							nv += n
+						}
 					}
 					if nv >= opts.StopViol {
 						// the verdict is settled by the violations already recorded
